@@ -545,9 +545,15 @@ fn check_characteristic_common(
         ];
         let axis_pts_names = ["X", "Y", "Z", "4", "5"];
         for (idx, axis_descr) in characteristic.axis_descr().iter().enumerate() {
+            // a record layout describes at most five axes: there is nothing to compare any further AXIS_DESCR with
+            let (Some(axis_ref), Some(axis_pts_name)) =
+                (axis_refs.get(idx), axis_pts_names.get(idx))
+            else {
+                break;
+            };
             if axis_descr.attribute == AxisDescrAttribute::StdAxis {
                 // an STD_AXIS must be described by the record layout - should this also apply to CURVE_AXIS?
-                if let Some(axis_pts_dim) = axis_refs[idx] {
+                if let Some(axis_pts_dim) = axis_ref {
                     // the compu method is optional, it could be set to NO_COMPU_METHOD
                     let opt_compu_method = module.compu_method.get(&axis_descr.conversion);
                     let calculated_limits =
@@ -571,8 +577,7 @@ fn check_characteristic_common(
                         blockname: kind.to_string(),
                         line,
                         description: format!(
-                            "Referenced RECORD_LAYOUT {rl_name} does not have AXIS_PTS_{}.",
-                            axis_pts_names[idx]
+                            "Referenced RECORD_LAYOUT {rl_name} does not have AXIS_PTS_{axis_pts_name}."
                         ),
                     });
                 }
